@@ -102,7 +102,14 @@ pub fn generate_lift(seed: u64, n: usize, _tier: &str, emit: &mut dyn FnMut(Stri
     while count < n && idx < n * 4 + 10 {
         let mut r = Rng::for_case(seed, "lift", idx);
         idx += 1;
-        let (cfg, prog) = if r.chance(2, 3) {
+        let (cfg, prog) = if r.chance(1, 3) {
+            // ground-truth idiom programs (incl. multi-field packed writes, text-like slots)
+            let mut used = vec![];
+            let nv = 1 + r.below(4);
+            let vars: Vec<crate::fam::idiom::Var> = (0..nv).map(|_| crate::fam::idiom::random_var(&mut r, &mut used)).collect();
+            let shape = r.below(2);
+            ("30000000,10,50,250,394,1".to_string(), crate::fam::idiom::program(&mut r, &vars, shape))
+        } else if r.chance(1, 2) {
             ("30000000,10,50,250,394,1".to_string(), pipeline::gen_idiom_program(&mut r))
         } else {
             let f = r.below(4);
